@@ -25,6 +25,9 @@ type Case struct {
 	// EmptyA / EmptyB: the operand is a value without any area (the drawn A or B is not used): NewBounds (geom.NewBounds(),
 	// the box before it is extended), InvertedBounds (Max < Min, laid over the other operand), Polygon{}, Polygon(nil),
 	// Polygon{{}}, MultiPolygon{}, MultiPolygon{{}}
+	// Moved ("A" | "B"): after the four operations have been judged, that operand's coordinates are rewritten in place
+	// (same slices) - moved far away, then back - and the operations are run and judged again each time
+	Moved  string `json:"moved,omitempty"`
 	EmptyA string `json:"empty_a,omitempty"`
 	EmptyB string `json:"empty_b,omitempty"`
 }
@@ -173,6 +176,9 @@ func gen(t *rapid.T) Case {
 			c.EmptyB, c.B = k, vkit.GJ{T: "Polygon"}
 		}
 		c.Config = "emptyoperand"
+	}
+	if rapid.IntRange(0, 3).Draw(t, "movedhistory") == 1 {
+		c.Moved = rapid.SampledFrom([]string{"A", "B", "B"}).Draw(t, "moved")
 	}
 	if rapid.IntRange(0, 2).Draw(t, "scaled") == 1 {
 		c.ScaleExp = rapid.OneOf(rapid.IntRange(-10, 40), rapid.IntRange(-10, 40), rapid.IntRange(-10, 40), rapid.IntRange(-60, -10), rapid.IntRange(-200, 200)).Draw(t, "scale_exp")
@@ -545,90 +551,155 @@ func run(c Case) (v vkit.Verdict) {
 		}
 	}()
 
-	var areaA, areaB float64
-	vkit.SlabSweep(append(append([]vkit.Edge{}, ea...), eb...), func(mask uint, area, cx, cy float64) {
-		if mask&1 != 0 {
-			areaA += area
+	// judge runs the four operations on (ga, gb) and compares them with the point-set definition for the rings (pa, pb)
+	judge := func(pa, pb [][][]vkit.P2, phase string) string {
+		ea, eb := vkit.EdgesOf(pa, 0), vkit.EdgesOf(pb, 1)
+		var areaA, areaB float64
+		vkit.SlabSweep(append(append([]vkit.Edge{}, ea...), eb...), func(mask uint, area, cx, cy float64) {
+			if mask&1 != 0 {
+				areaA += area
+			}
+			if mask&2 != 0 {
+				areaB += area
+			}
+		})
+		tol := 1e-9 * (areaA + areaB)
+		var areaR [4]float64
+		for op := 0; op < 4; op++ {
+			var res geom.Polygonal
+			if p := vkit.Catch(func() { res = apply(op, ga, gb) }); p != "" {
+				return fmt.Sprintf(phase+"%s.%s(%s) panicked: %s", ta, opNames[op], tb, p)
+			}
+			pr, isNil := resultPolys(res, inv)
+			if isNil {
+				v.Class("nil_result")
+			}
+			// (4) closed rings from Polygon / MultiPolygon receivers
+			if ta != "Bounds" {
+				for _, p := range pr {
+					for _, r := range p {
+						if len(r) > 0 && r[0] != r[len(r)-1] {
+							return fmt.Sprintf(phase+"%s.%s(%s): result ring not closed: %v", ta, opNames[op], tb, r)
+						}
+					}
+				}
+			}
+			er := vkit.EdgesOf(pr, 2)
+			all := append(append(append([]vkit.Edge{}, ea...), eb...), er...)
+			var bad, expected float64
+			var wx, wy, warea float64
+			type tp struct {
+				x, y float64
+				want bool
+			}
+			var pts []tp
+			vkit.SlabSweep(all, func(mask uint, area, cx, cy float64) {
+				want := opTruth(op, mask&1 != 0, mask&2 != 0)
+				got := mask&4 != 0
+				if got {
+					areaR[op] += area
+				}
+				if want {
+					expected += area
+				}
+				if want != got {
+					bad += area
+					if area > warea {
+						wx, wy, warea = cx, cy, area
+					}
+				}
+				if len(pts) < 96 && area > 1e-6*scale*scale {
+					pts = append(pts, tp{cx, cy, want})
+				}
+			})
+			if !(bad <= tol) { // NaN-safe
+				return fmt.Sprintf(phase+"%s.%s(%s): region where the result disagrees with the point-set definition has area %.6g (expected result area %.6g, result area %.6g, tol %.3g); "+
+					"largest piece around (%v, %v); result=%v", ta, opNames[op], tb, bad, expected, areaR[op], tol, wx, wy, pr)
+			}
+			// (2) the literal statement on test points with a clear margin from every input edge
+			for _, q := range pts {
+				p := vkit.MkP(q.x, q.y)
+				if vkit.MinDistToEdges(p, ea) <= 1e-6*scale || vkit.MinDistToEdges(p, eb) <= 1e-6*scale {
+					continue
+				}
+				inA, inB := vkit.PIP(p, pa) == vkit.Inside, vkit.PIP(p, pb) == vkit.Inside
+				st := vkit.PIP(p, pr)
+				if want := opTruth(op, inA, inB); (st == vkit.Inside) != want {
+					return fmt.Sprintf(phase+"%s.%s(%s): point %v inA=%v inB=%v but in result=%v", ta, opNames[op], tb, p, inA, inB, st)
+				}
+			}
 		}
-		if mask&2 != 0 {
-			areaB += area
+		// (3) inclusion-exclusion with true areas
+		if d := areaR[0] + areaR[1] - areaA - areaB; vkit.Off(d, 4*tol) {
+			return fmt.Sprintf(phase+"area(A∩B)+area(A∪B)-area(A)-area(B) = %g", d)
 		}
-	})
-	tol := 1e-9 * (areaA + areaB)
-	var areaR [4]float64
-	for op := 0; op < 4; op++ {
-		var res geom.Polygonal
-		if p := vkit.Catch(func() { res = apply(op, ga, gb) }); p != "" {
-			return v.Fail("%s.%s(%s) panicked: %s", ta, opNames[op], tb, p)
+		if d := areaR[2] - (areaA - areaR[0]); vkit.Off(d, 4*tol) {
+			return fmt.Sprintf(phase+"area(A-B)-(area(A)-area(A∩B)) = %g", d)
 		}
-		pr, isNil := resultPolys(res, inv)
-		if isNil {
-			v.Class("nil_result")
+		if d := areaR[3] - (areaR[1] - areaR[0]); vkit.Off(d, 4*tol) {
+			return fmt.Sprintf(phase+"area(A xor B)-(area(A∪B)-area(A∩B)) = %g", d)
 		}
-		// (4) closed rings from Polygon / MultiPolygon receivers
-		if ta != "Bounds" {
-			for _, p := range pr {
-				for _, r := range p {
-					if len(r) > 0 && r[0] != r[len(r)-1] {
-						return v.Fail("%s.%s(%s): result ring not closed: %v", ta, opNames[op], tb, r)
+		return ""
+	}
+	if msg := judge(pa, pb, ""); msg != "" {
+		return v.Fail("%s", msg)
+	}
+	if c.Moved != "" && sc == 1 && c.EmptyA == "" && c.EmptyB == "" {
+		// a history: the caller rewrites one operand's coordinates in place (the same slices, the same number of points) -
+		// far away, then back - and calls again each time: every call has to answer for the coordinates it is handed
+		px0, px1 := ax0, ax1
+		target, tg, polys := ga, c.A, pa
+		if c.Moved == "B" {
+			px0, px1, target, tg, polys = bx0, bx1, gb, c.B, pb
+		}
+		_ = px0
+		d := math.Ldexp(1, int(math.Ceil(math.Log2(64*scale+math.Abs(px1)+1))))
+		far := make([][][]vkit.P2, len(polys))
+		for i, pg := range polys {
+			far[i] = make([][]vkit.P2, len(pg))
+			for j, r := range pg {
+				far[i][j] = make([]vkit.P2, len(r))
+				for k, q := range r {
+					far[i][j][k] = vkit.MkP(float64(q[0])+d, float64(q[1]))
+				}
+			}
+		}
+		write := func(ps [][][]vkit.P2) {
+			switch g := target.(type) {
+			case *geom.Bounds:
+				g.Min, g.Max = ps[0][0][0].Pt(), ps[0][0][2].Pt()
+			case geom.Polygon:
+				for j := range g {
+					for k := range g[j] {
+						g[j][k] = ps[0][j][k].Pt()
+					}
+				}
+			case geom.MultiPolygon:
+				for i := range g {
+					for j := range g[i] {
+						for k := range g[i][j] {
+							g[i][j][k] = ps[i][j][k].Pt()
+						}
 					}
 				}
 			}
 		}
-		er := vkit.EdgesOf(pr, 2)
-		all := append(append(append([]vkit.Edge{}, ea...), eb...), er...)
-		var bad, expected float64
-		var wx, wy, warea float64
-		type tp struct {
-			x, y float64
-			want bool
+		_ = tg
+		v.Class("operand_" + c.Moved + "_rewritten_in_place_between_calls")
+		write(far)
+		var msg string
+		if c.Moved == "B" {
+			msg = judge(pa, far, "after operand B was rewritten in place (moved away by "+fmt.Sprint(d)+"): ")
+		} else {
+			msg = judge(far, pb, "after operand A was rewritten in place (moved away by "+fmt.Sprint(d)+"): ")
 		}
-		var pts []tp
-		vkit.SlabSweep(all, func(mask uint, area, cx, cy float64) {
-			want := opTruth(op, mask&1 != 0, mask&2 != 0)
-			got := mask&4 != 0
-			if got {
-				areaR[op] += area
-			}
-			if want {
-				expected += area
-			}
-			if want != got {
-				bad += area
-				if area > warea {
-					wx, wy, warea = cx, cy, area
-				}
-			}
-			if len(pts) < 96 && area > 1e-6*scale*scale {
-				pts = append(pts, tp{cx, cy, want})
-			}
-		})
-		if !(bad <= tol) { // NaN-safe
-			return v.Fail("%s.%s(%s): region where the result disagrees with the point-set definition has area %.6g (expected result area %.6g, result area %.6g, tol %.3g); "+
-				"largest piece around (%v, %v); result=%v", ta, opNames[op], tb, bad, expected, areaR[op], tol, wx, wy, pr)
+		write(polys)
+		if msg == "" {
+			msg = judge(pa, pb, "after operand "+c.Moved+" was moved away and back in place: ")
 		}
-		// (2) the literal statement on test points with a clear margin from every input edge
-		for _, q := range pts {
-			p := vkit.MkP(q.x, q.y)
-			if vkit.MinDistToEdges(p, ea) <= 1e-6*scale || vkit.MinDistToEdges(p, eb) <= 1e-6*scale {
-				continue
-			}
-			inA, inB := vkit.PIP(p, pa) == vkit.Inside, vkit.PIP(p, pb) == vkit.Inside
-			st := vkit.PIP(p, pr)
-			if want := opTruth(op, inA, inB); (st == vkit.Inside) != want {
-				return v.Fail("%s.%s(%s): point %v inA=%v inB=%v but in result=%v", ta, opNames[op], tb, p, inA, inB, st)
-			}
+		if msg != "" {
+			return v.Fail("%s", msg)
 		}
-	}
-	// (3) inclusion-exclusion with true areas
-	if d := areaR[0] + areaR[1] - areaA - areaB; vkit.Off(d, 4*tol) {
-		return v.Fail("area(A∩B)+area(A∪B)-area(A)-area(B) = %g", d)
-	}
-	if d := areaR[2] - (areaA - areaR[0]); vkit.Off(d, 4*tol) {
-		return v.Fail("area(A-B)-(area(A)-area(A∩B)) = %g", d)
-	}
-	if d := areaR[3] - (areaR[1] - areaR[0]); vkit.Off(d, 4*tol) {
-		return v.Fail("area(A xor B)-(area(A∪B)-area(A∩B)) = %g", d)
 	}
 	return v
 }
